@@ -163,7 +163,10 @@ func init() {
 					continue
 				}
 				inst := reflect.New(t)
-				pl := plant(inst.Elem(), p, "SENTINEL")
+				pl := plant(inst.Elem(), p, "SENTINEL", 0)
+				if p.hasSlice() && pl.OK {
+					plant(inst.Elem(), p, "SENTINEL_b", 1)
+				}
 				res := walkResult{SQL: "(reflective tree: " + args[0] + " with a node at " + args[1] + ")", Accepted: pl.OK}
 				if pl.OK {
 					inspectTree(inst.Interface().(ast.Node), &res)
